@@ -99,56 +99,69 @@ def newContent (S T : FileSetM Key Data Content) (conv : Option (Data → Data))
 def deleteAll (dry : Bool) (fs : FS Content) (paths : List String) : FS Content :=
   if dry then fs else paths.foldl (fun acc p => acc.del p) fs
 
-/-! ## histories over two filesets (content level) -/
+/-! ## histories over two filesets (content level)
 
-inductive Op (Key Content : Type) where
-  | writeS (k : Key) (c : Content)
-  | writeT (k : Key) (c : Content)
-  | move (ks : List Key) (copy : Bool)          -- S → T, plain
-  | deleteS (ks : List Key) (dry : Bool)
-  | deleteT (ks : List Key) (dry : Bool)
+The two filesets may carry different information in their names: `S` is keyed by `KS`, `T` by `KT`, and
+`ρ : KS → KT` says what of a source key the target template retains (identity for templates with the same fields,
+a projection for a coarser target, an embedding when the target has more fields than the source).  Two source
+files with the same `ρ`-image collide in `T` — concretely (the later one overwrites) and abstractly alike. -/
+
+inductive Op (KS KT Content : Type) where
+  | writeS (k : KS) (c : Content)
+  | writeT (k : KT) (c : Content)
+  | move (ks : List KS) (copy : Bool)          -- S → T, plain
+  | deleteS (ks : List KS) (dry : Bool)
+  | deleteT (ks : List KT) (dry : Bool)
+
+variable {KS KT : Type}
 
 /-- plain move of one key on the concrete file system (no-op when the source is missing) -/
-def mvKey (S T : FileSetM Key Data Content) (copy : Bool) (fs : FS Content) (k : Key) : FS Content :=
+def mvKey (S : FileSetM KS Data Content) (T : FileSetM KT Data Content) (ρ : KS → KT) (copy : Bool)
+    (fs : FS Content) (k : KS) : FS Content :=
   match fs (S.nameOf k) with
   | none => fs
-  | some c => if copy then fs.set (T.nameOf k) c else (fs.set (T.nameOf k) c).del (S.nameOf k)
+  | some c => if copy then fs.set (T.nameOf (ρ k)) c else (fs.set (T.nameOf (ρ k)) c).del (S.nameOf k)
 
-def stepC (S T : FileSetM Key Data Content) (fs : FS Content) : Op Key Content → FS Content
+def stepC (S : FileSetM KS Data Content) (T : FileSetM KT Data Content) (ρ : KS → KT) (fs : FS Content) :
+    Op KS KT Content → FS Content
   | .writeS k c => fs.set (S.nameOf k) c
   | .writeT k c => fs.set (T.nameOf k) c
-  | .move ks copy => ks.foldl (mvKey S T copy) fs
+  | .move ks copy => ks.foldl (mvKey S T ρ copy) fs
   | .deleteS ks dry => deleteAll dry fs (ks.map S.nameOf)
   | .deleteT ks dry => deleteAll dry fs (ks.map T.nameOf)
 
-def runC (S T : FileSetM Key Data Content) (fs : FS Content) (ops : List (Op Key Content)) : FS Content :=
-  ops.foldl (stepC S T) fs
+def runC (S : FileSetM KS Data Content) (T : FileSetM KT Data Content) (ρ : KS → KT) (fs : FS Content)
+    (ops : List (Op KS KT Content)) : FS Content :=
+  ops.foldl (stepC S T ρ) fs
 
-/-- the abstract state: what each fileset holds under each (times, attributes) key -/
-structure Abs (Key Content : Type) where
-  s : Key → Option Content
-  t : Key → Option Content
+/-- the abstract state: what each fileset holds under each key of its own -/
+structure Abs (KS KT Content : Type) where
+  s : KS → Option Content
+  t : KT → Option Content
 
-def upd [DecidableEq Key] (m : Key → Option Content) (k : Key) (v : Option Content) : Key → Option Content :=
+def upd {K : Type} [DecidableEq K] (m : K → Option Content) (k : K) (v : Option Content) : K → Option Content :=
   fun k' => if k' = k then v else m k'
 
-def mvKeyA [DecidableEq Key] (copy : Bool) (a : Abs Key Content) (k : Key) : Abs Key Content :=
+def mvKeyA [DecidableEq KS] [DecidableEq KT] (ρ : KS → KT) (copy : Bool) (a : Abs KS KT Content) (k : KS) :
+    Abs KS KT Content :=
   match a.s k with
   | none => a
-  | some c => { s := if copy then a.s else upd a.s k none, t := upd a.t k (some c) }
+  | some c => { s := if copy then a.s else upd a.s k none, t := upd a.t (ρ k) (some c) }
 
-def stepA [DecidableEq Key] (a : Abs Key Content) : Op Key Content → Abs Key Content
+def stepA [DecidableEq KS] [DecidableEq KT] (ρ : KS → KT) (a : Abs KS KT Content) :
+    Op KS KT Content → Abs KS KT Content
   | .writeS k c => { a with s := upd a.s k (some c) }
   | .writeT k c => { a with t := upd a.t k (some c) }
-  | .move ks copy => ks.foldl (mvKeyA copy) a
+  | .move ks copy => ks.foldl (mvKeyA ρ copy) a
   | .deleteS ks dry => if dry then a else { a with s := ks.foldl (fun m k => upd m k none) a.s }
   | .deleteT ks dry => if dry then a else { a with t := ks.foldl (fun m k => upd m k none) a.t }
 
-def runA [DecidableEq Key] (a : Abs Key Content) (ops : List (Op Key Content)) : Abs Key Content :=
-  ops.foldl stepA a
+def runA [DecidableEq KS] [DecidableEq KT] (ρ : KS → KT) (a : Abs KS KT Content) (ops : List (Op KS KT Content)) :
+    Abs KS KT Content :=
+  ops.foldl (stepA ρ) a
 
 /-- abstraction function: look every key up under its generated name -/
-def absOf (S T : FileSetM Key Data Content) (fs : FS Content) : Abs Key Content :=
+def absOf (S : FileSetM KS Data Content) (T : FileSetM KT Data Content) (fs : FS Content) : Abs KS KT Content :=
   { s := fun k => fs (S.nameOf k), t := fun k => fs (T.nameOf k) }
 
 end FsOps
